@@ -680,7 +680,9 @@ func (e *env) doUpdate(f []string, trace bool) {
 			}
 		}
 		// the same read through GetCachedOrRefresh with the network down
-		if ov := e.offline(e.sclient); ov != v {
+		if i%3 != 0 {
+			// (sampled: every third crash state; the driver counts the same ones)
+		} else if ov := e.offline(e.sclient); ov != v {
 			offDiff++
 			if ov == "fallback" && !failed["r"] {
 				failed["r"] = true
@@ -701,6 +703,31 @@ func (e *env) doUpdate(f []string, trace bool) {
 	}
 	if cnt > 0 {
 		rle = append(rle, fmt.Sprintf("%s*%d", lastV, cnt))
+	}
+	// ---- power loss after the rename: the renamed cache file's data is not durable (no fsync): it may be
+	// empty or any proper prefix while the directory entry is already there (monitor only; c45_power_loss)
+	for _, op := range ops {
+		if op.kind != "rename" || !isCacheName(op.b) {
+			continue
+		}
+		if _, existed := pre[op.b]; existed {
+			continue // same-second overwrite: the older version is gone either way (outside the theorem)
+		}
+		full := doc
+		for _, i := range []int{0, 1, len(full) / 2, len(full) - 1} {
+			if i < 0 || i >= len(full) {
+				continue
+			}
+			st := cloneState(pre)
+			st[op.b] = full[:i]
+			e.materialise(prev, st)
+			prev = st
+			o.Kind("power-loss-state")
+			if v := e.verdict(e.sclient); v != before && !failed["p"] {
+				failed["p"] = true
+				o.Fail("power-loss", "new file %s holding %d of %d bytes after a power loss: GetCached=%s, before the update it was %s", e.canonName(op.b, S, t), i, len(full), v, before)
+			}
+		}
 	}
 	if len(states) > 10 {
 		o.Nontrivial()
